@@ -14,6 +14,12 @@ REQUIRED = [
     "DaeVerif.C12.Props.canonicalize_same_set",
     "DaeVerif.C12.Props.share_only_if_equal",
     "DaeVerif.C12.Props.shared_slots_equal_sets",
+    "DaeVerif.C12.Props.canonicalize_same_members",
+    "DaeVerif.C12.Props.canonicalize_canonical",
+    "DaeVerif.C12.Props.v4_default_route",
+    "DaeVerif.C12.Props.slots_hold_own_set",
+    "DaeVerif.C12.Props.slot_same_set_ip",
+    "DaeVerif.C12.Props.mac_slot_exact",
 ]
 
 
@@ -58,6 +64,25 @@ def run(ctx):
     ctx.samples = stats["samples"] + read_lines(ops)[:3]
     ctx.cov["input_distribution"] = stats["counters"]
     ctx.cov["match_hits"] = n_hit
+    # generator floors: a silent loss of a whole input class is a broken check, not a green one
+    c = stats["counters"]
+    floors = []
+    if c.get("share.constructed_collision", 0) < 1:
+        floors.append("no constructed FNV collision reached the sharing stream (hashLpmSet changed? the collision construction must be redone)")
+    if c.get("share.mac_set", 0) < 5:
+        floors.append("fewer than 5 MAC sets in the sharing stream")
+    if c.get("prefix.v4_with_mapped_twin", 0) < 10:
+        floors.append("fewer than 10 IPv4 prefixes accompanied by their IPv4-mapped twins")
+    for fam, top in (("v6", 128), ("v4", 32)):
+        for L in range(top + 1):
+            hit = c.get("sweep.%s.len%03d.1" % (fam, L), 0)
+            miss = c.get("sweep.%s.len%03d.0" % (fam, L), 0)
+            if hit < 1 or (miss < 1 and not (fam == "v6" and L == 0)):
+                floors.append(f"length sweep: {fam} /{L} has hits={hit} misses={miss}")
+    ctx.cov["generator_floors_failed"] = floors
+    if floors:
+        ctx.say("GENERATOR-FLOOR-FAILED " + "; ".join(floors[:5]))
+        return 2
     ctx.assumptions = ["probe addresses and prefix sets are generated (seeded); sizes 1..~220 prefixes per set"]
     return ctx.finish(rule="ops = bin/key/match/canon/share lines; a `match` op is one (prefix set, probe address) pair, "
                            "probes are the first/last address inside and the neighbours outside every prefix plus random ones; "
